@@ -38,10 +38,13 @@ ODD_STRINGS = ['', 'a', 'é', '日本語', '😀', 'a\u0301', 'x y', '"q"', 'bac
 
 
 class ValueGen:
-    def __init__(self, m, rnd, max_depth=5):
+    def __init__(self, m, rnd, max_depth=5, bool_for_number=False):
         self.m = m
         self.rnd = rnd
         self.max_depth = max_depth
+        # Python bools pass the integer and float validators (and are documented to
+        # be written as numbers); only the encoding checks feed them
+        self.bool_for_number = bool_for_number
 
     # ---- primitives ----
     def int_value(self, t):
@@ -50,6 +53,10 @@ class ValueGen:
         mx = t.args.get('max_value', hi)
         cands = [mn, mx, mn + 1, mx - 1, 0, 1, -1, 2 ** 31, 2 ** 53 + 1, -2 ** 31 - 1]
         cands = [c for c in cands if mn <= c <= mx]
+        if self.bool_for_number and self.rnd.random() < 0.08:
+            bools = [b for b in (True, False) if mn <= int(b) <= mx]
+            if bools:
+                return self.rnd.choice(bools)
         return self.rnd.choice(cands)
 
     def float_value(self, t):
@@ -61,6 +68,10 @@ class ValueGen:
         cands = [lo2, hi2, 0.0, -0.0, 0.5, -1.5, 1e-300, 5e-324, 1.0, 3.0, 1e16, 2.5e-5, 123456.789]
         cands = [c for c in cands if lo2 <= c <= hi2]
         v = self.rnd.choice(cands)
+        if self.bool_for_number and self.rnd.random() < 0.05:
+            bools = [b for b in (True, False) if lo2 <= float(b) <= hi2]
+            if bools:
+                return self.rnd.choice(bools)
         if v == int(v) and abs(v) < 2 ** 53 and self.rnd.random() < 0.25:
             return int(v)     # documented normalisation: ints stored as floats
         return v
